@@ -940,7 +940,24 @@ fn faulty_reader_case(c: &mut Case, fmt: usize, kind_i: usize, pass: u32, frac: 
     c.tick(1);
     let reached = truncate || delivered.get() > 0;
     if !reached {
-        return; // the planned fault point was never reached (e.g. an earlier pass already ended the build): nothing to judge
+        // the planned fault point was never reached (e.g. an earlier pass already ended the
+        // build): the fault clause has nothing to judge, but a repeated key under
+        // check_dups can never end in Ok (e.g. a function over the keys of an empty retry pass)
+        if pass > 0 {
+            match r {
+                Ok(Ok(len)) => c.fail(
+                    if filter { "try_build_filter" } else { "try_build_func" },
+                    "ok-with-duplicate",
+                    "Ok returned although a key is repeated and check_dups is set",
+                    &format!("the build returned Ok (len() = {}) for {} (the fault point was never reached)", len, what),
+                ),
+                Ok(Err(_)) => {}
+                Err(m) => c.fail(if filter { "try_build_filter" } else { "try_build_func" }, "panic", &m, &format!("the build panicked for {}", what)),
+            }
+            c.nontrivial();
+            c.set_cell(format!("duplicate-no-fault|{}|{}|n{}", ["plain", "zstd", "gzip"][fmt], if filter { "filter" } else { "func" }, n));
+        }
+        return;
     }
     // a plain stream cut in the middle is simply a shorter list of keys: only compressed streams are damaged by truncation
     if truncate && fmt == 0 {
@@ -991,6 +1008,13 @@ fn main() {
                     let variant = format!("{}/{}", ["LineLender", "ZstdLineLender", "GzipLineLender"][fmt], if filter { "filter" } else { "func" });
                     ctx.case(&variant, &format!("read-fault/{}/pass{}", READ_FAULT_KINDS[kind_i].1, pass + 1), if filter { "try_build_filter" } else { "try_build_func" }, |c| faulty_reader_case(c, fmt, kind_i, pass, frac, filter, false, n));
                 }
+            }
+        }
+        // a repeated key and no fault at all (the fault is planned for a pass that never comes)
+        for (i, n) in [2usize, 40, 300, 2000].into_iter().enumerate() {
+            for filter in [false, true] {
+                let variant = format!("{}/{}", ["LineLender", "ZstdLineLender", "GzipLineLender"][fmt], if filter { "filter" } else { "func" });
+                ctx.case(&variant, "duplicate/line-lender-no-fault", if filter { "try_build_filter" } else { "try_build_func" }, |c| faulty_reader_case(c, fmt, i % READ_FAULT_KINDS.len(), 1_000_000, 0, filter, false, n));
             }
         }
         for frac in [1usize, 3, 5, 7] {
